@@ -836,8 +836,8 @@ def make_scripthash_lock(script: Script, hashsize: int = 26) -> Script:
         stack, checked, and verified.
     """
     return Script.from_src(f'''
-        dup shake256 d{hashsize}
-        push ~! {{ push x{script.bytes.hex()} shake256 d{hashsize} }}
+        dup shake256 x{hashsize:02x}
+        push ~! {{ push x{script.bytes.hex()} shake256 x{hashsize:02x} }}
         equal_verify
         eval
     ''')
